@@ -510,6 +510,8 @@ def finish(prop, tier, seed, results, level_text, assumptions, t0, extra_cov=Non
         asserts = sorted(set(asserts))[:6]
         if asserts or r.extra.get("samples"):
             samples.append({"query": r.q.name, "harness": r.q.src, "obligations": asserts or r.extra.get("samples")})
+    if not samples:
+        samples = [{"query": r.q.name, "harness": r.q.src, "obligations": [r.q.desc or r.q.name]} for r in results[:6]]
     cov = {
         "evaluations": len(results),
         "distinct_nontrivial": n_ok,
